@@ -84,6 +84,19 @@ func lookupContract(table []contractPanic, fn, msg string) (contractPanic, bool)
 			return c, true
 		}
 	}
+	// the same panic (same message text) moved to another function of the same package by an inlining or a merge
+	pkgOf := func(name string) string {
+		name = strings.TrimLeft(name, "(*")
+		if i := strings.Index(name, "."); i > 0 {
+			return name[:i]
+		}
+		return name
+	}
+	for _, c := range table {
+		if c.Msg == msg && pkgOf(c.Fn) == pkgOf(fn) {
+			return c, true
+		}
+	}
 	return contractPanic{}, false
 }
 
